@@ -191,7 +191,7 @@ def main(argv=None):
         print('KNOWN-FINDING: property=%s %s [%d case(s) excluded]' % (prop_id, slot['what'], slot['cases_excluded']))
 
     violations = 0
-    for key in new_keys[:25]:
+    for key in new_keys[:int(os.environ.get('VERIF_MAX_NEW', '25'))]:
         entry = stats.findings[key]
         found_by = 'generation'
         if hasattr(module, 'shrink'):
